@@ -85,6 +85,11 @@ def scenarios():
                                     targets={"a.md": (A, fmt(A, True)), "b.md": (B, fmt(B, True))})
     S["o-symlink-target"] = dict(files={"a.md": A, "real-out.md": "OLD OUTPUT\n"}, links={"out.md": "real-out.md"}, argv=["-o", "out.md", "a.md"],
                                  targets={"out.md": ("->real-out.md", fmt(A))})
+    # appended later: the same path named twice (a shell glob plus an explicit name), other files after it
+    S["i-duplicate-arg"] = dict(files={"a.md": A, "b.md": B, "c.md": C}, argv=["-i", "--nobackup", "a.md", "b.md", "a.md", "c.md"],
+                                targets={"a.md": (A, fmt(A)), "b.md": (B, fmt(B)), "c.md": (C, fmt(C))})
+    S["auto-duplicate-arg-2"] = dict(files={"a.md": A, "b.md": B, "c.md": C}, argv=["--auto", "./a.md", "a.md", "b.md", "c.md"],
+                                     targets={"a.md": (A, fmt(A, True)), "b.md": (B, fmt(B, True)), "c.md": (C, fmt(C, True))})
     ACR = A.replace("\n", "\r\n")
     S["i-backup-crlf"] = dict(files={"a.md": ACR}, argv=["-i", "a.md"], targets={"a.md": (ACR, fmt(A))}, backup=True)
     S["auto-crlf-3files"] = dict(files={"a.md": ACR, "b.md": B, "c.md": C.replace("\n", "\r")}, argv=["--auto", "a.md", "b.md", "c.md"],
